@@ -345,6 +345,25 @@ func runC16(r *evid.Run) {
 			}
 		}
 	}
+	// multi-component wildcard tails, alone and paired with every other pattern; patterns spelled with a leading
+	// separator or leading ".."
+	for ti, t := range trees {
+		if ti >= 4 {
+			break
+		}
+		for _, tp := range c10TailPatterns {
+			cases = append(cases, c16Case{Tree: t, Include: []string{tp}, Dst: "empty"}, c16Case{Tree: t, Exclude: []string{tp}, Dst: "empty"})
+			for _, q := range c10Patterns {
+				cases = append(cases, c16Case{Tree: t, Include: []string{q, tp}, Dst: "empty"}, c16Case{Tree: t, Include: []string{tp, q}, Dst: "empty"}, c16Case{Tree: t, Include: []string{tp}, Exclude: []string{q}, Dst: "empty"})
+			}
+		}
+		odd := []string{"/a", "../a", "!/a/b", "/a/b", "a", "!a/b", "a/../b", "./a/b", "**", "!/b"}
+		for _, in := range patternLists(2, odd) {
+			for _, ex := range patternLists(1, odd) {
+				cases = append(cases, c16Case{Tree: t, Include: in, Exclude: ex, Dst: "empty"}, c16Case{Tree: t, Include: ex, Exclude: in, Dst: "empty"})
+			}
+		}
+	}
 	// escaped metacharacters in patterns, names that contain them
 	for _, in := range patternLists(2, c10EscPatterns) {
 		for _, ex := range patternLists(1, c10EscPatterns) {
